@@ -735,8 +735,9 @@ PPL::Grid::relation_with(const Constraint& c) const {
         // and fall through into the parameter case.
         Grid_Generator& gen = const_cast<Grid_Generator&>(g);
         const Grid_Generator& point = *first_point;
-        const Coefficient& p_div = point.divisor();
-        const Coefficient& g_div = gen.divisor();
+        // Copies: `gen.expr' is modified below, a reference into it may dangle.
+        const Coefficient p_div = point.divisor();
+        const Coefficient g_div = gen.divisor();
         gen.expr.linear_combine(point.expr, p_div, -g_div,
                                 1, gen.expr.space_dimension());
         gen.expr.set_inhomogeneous_term(g_div * p_div);
